@@ -279,6 +279,65 @@ def analyse(prog, crates):
                         names = fl
                 findings.append(dict(fn=f, kind=kind, op=op, pos=st[3], bb=b, why=bad, name=",".join(names),
                                      src=sorted(x for x in (a.src | c.src) if not x.startswith("field:"))))
+    # a `match` on a ranged value whose fall-through arm is an explicit panic (unreachable!() / panic!()) must list every value
+    # the stream can set
+    for f in fns:
+        fi = None
+        for b, blk in enumerate(f.blocks):
+            if blk[2] or blk[1][0] != "switch":
+                continue
+            t = blk[1]
+            ob = t[3]
+            for _ in range(4):
+                tt = f.term(ob)
+                if tt[0] == "goto" and not f.stmts(ob):
+                    ob = tt[1]
+                else:
+                    break
+            tt = f.term(ob)
+            cc = callee(tt) if tt[0] == "call" else None
+            if not (cc and cc["fn"].startswith("core::panicking::") and tt[4] is None):
+                continue
+            if len(t[2]) < 2 or operand_ty(f, t[1]) == "bool":
+                continue        # `assert!(flag)` shapes are conditions on other state, not a match over a decoded value
+            if fi is None:
+                fi = IV.FnIntervals(f, fields, prog)
+                loads = field_loads(f)
+            v = fi.op(t[1])
+            if v is None or not v.src:
+                continue
+            rng = (v.lo, v.hi) if v.exact else v.sure
+            if rng is None:
+                continue
+            n_ops += 1
+            listed = {int(x) for x, _ in t[2]}
+            missing = None
+            if rng[1] - rng[0] + 1 > sum(1 for x in listed if rng[0] <= x <= rng[1]):
+                missing = next(x for x in range(rng[0], min(rng[1], rng[0] + 4096) + 1) if x not in listed) \
+                    if any(x not in listed for x in range(rng[0], min(rng[1], rng[0] + 4096) + 1)) else rng[1]
+            if missing is None:
+                continue
+            skip = False
+            for tag in v.src:
+                if tag.startswith("field:"):
+                    adt_, _, fld_ = tag[6:].rpartition(".")
+                    if (adt_, fld_) in validated:
+                        skip = True
+            l = op_local(t[1])
+            if l is not None and locally_guarded(f, l, b, skip=None):
+                skip = True
+            if skip:
+                continue
+            p = op_place(t[1])
+            k = field_of_place(p) if p is not None else None
+            if k is None and l is not None:
+                k = loads.get(l)
+            nm = ("%s.%s" % (k[0].split("::")[-1], k[1])) if k else (f.local_name(l) if l is not None and f.local_name(l) else
+                                                                 ",".join(sorted(x[6:].split("::")[-1] for x in v.src if x.startswith("field:"))) or "?")
+            findings.append(dict(fn=f, kind="match", op="switch", pos=t[-2], bb=b, name=nm,
+                                 why="the match lists %s but the value ranges over [%d, %d]; %d falls through to an explicit panic (%s)"
+                                     % (sorted(listed), rng[0], rng[1], missing, cc["fn"].split("::")[-1]),
+                                 src=sorted(x for x in v.src if not x.startswith("field:"))))
     return findings, n_ops, fields
 
 
